@@ -163,7 +163,8 @@ def _rand_doc(rng):
             if rng.random() < 0.7:
                 info["center"] = [x + num(), num()]
             if rng.random() < 0.5:
-                info["aspect_ratio"] = rng.choice([[0.5, 2.0], 3, [0, 4]])
+                # intervals that are symmetric only up to rounding must come back as they were (after the open seed r8-C04-1)
+                info["aspect_ratio"] = rng.choice([[0.5, 2.0], 3, [0, 4], [0.333333333333, 3], [0.14285714285714, 7], [0.1, 10.0000000000005], [0.6666666666666, 1.5]])
             if rng.random() < 0.4:
                 info["rectangles"] = [[x + 1.0, 2.0, 2.0, 2.0] + (["LUT"] if kind == "softreg" else []), [x + 3.0, 2.0, 2.0, 1.0]]
             if "center" not in info and "rectangles" not in info:
